@@ -4,7 +4,7 @@
 set -u
 export GOFLAGS=-mod=mod GOPROXY=off GOSUMDB=off GOTOOLCHAIN=local
 ID=$1; VAR=$2; CID=${3:-$1}; TIER=${4:-quick}
-ROUND=/tmp/seed; case "$VAR" in c|d) ROUND=/tmp/seed2;; e|f) ROUND=/tmp/seed3;; g|h) ROUND=/tmp/seed4;; i|j) ROUND=/tmp/seed5;; k|l) ROUND=/tmp/seed6;; m|n) ROUND=/tmp/seed7;; o|p) ROUND=/tmp/seed8;; q|r) ROUND=/tmp/seed9;; esac
+ROUND=/tmp/seed; case "$VAR" in c|d) ROUND=/tmp/seed2;; e|f) ROUND=/tmp/seed3;; g|h) ROUND=/tmp/seed4;; i|j) ROUND=/tmp/seed5;; k|l) ROUND=/tmp/seed6;; m|n) ROUND=/tmp/seed7;; o|p) ROUND=/tmp/seed8;; q|r) ROUND=/tmp/seed9;; s|t) ROUND=/tmp/seed10;; esac
 SRC=$ROUND/$ID/out/$VAR
 [ -d "$SRC" ] || SRC=/verif/seeded/$ID-$VAR
 WT=$ROUND/$ID/wt
